@@ -2,4 +2,5 @@
 pub mod engine;
 pub mod graph;
 pub mod props;
+pub mod refsys;
 pub mod runner;
